@@ -4,6 +4,8 @@ pub mod c01;
 pub mod c02;
 pub mod c03;
 pub mod c04;
+pub mod c05;
+pub mod c07;
 pub mod c09;
 pub mod c10;
 pub mod c11;
@@ -12,7 +14,7 @@ pub mod c14;
 pub mod c18;
 pub mod c19;
 
-pub static ALL: &[&PropDef] = &[&c01::DEF, &c02::DEF, &c03::DEF, &c04::DEF, &c09::DEF, &c10::DEF, &c11::DEF, &c13::DEF, &c14::DEF, &c18::DEF, &c19::DEF];
+pub static ALL: &[&PropDef] = &[&c01::DEF, &c02::DEF, &c03::DEF, &c04::DEF, &c05::DEF, &c07::DEF, &c09::DEF, &c10::DEF, &c11::DEF, &c13::DEF, &c14::DEF, &c18::DEF, &c19::DEF];
 
 pub fn find(id: &str) -> Option<&'static PropDef> {
     ALL.iter().copied().find(|p| p.id.eq_ignore_ascii_case(id))
